@@ -206,6 +206,19 @@ def case_config_helpers(**p):
           fails.append((mode, fc.name, ks))
         if fc.name == 'b' and (-1.0 in ks):
           fails.append((mode, fc.name, ks))
+      # a keypoints dict that also carries a name without a FeatureConfig (say the label column), in every position: every
+      # configured feature still receives its keypoints; with add_missing_feature_configs the extra name gets a config
+      for pos in range(3):
+        for add_missing in (False, True):
+          fcs2 = [tfl.configs.FeatureConfig(name='a', pwl_calibration_input_keypoints=mode, pwl_calibration_num_keypoints=3),
+                  tfl.configs.FeatureConfig(name='b', pwl_calibration_input_keypoints=mode, pwl_calibration_num_keypoints=4)]
+          items = [('a', [0.0, 1.0, 2.0]), ('b', [0.0, 0.5, 1.0, 4.0])]
+          items.insert(pos, ('extra', [1.0, 2.0]))
+          premade_lib.set_feature_keypoints(fcs2, dict(items), add_missing_feature_configs=add_missing)
+          got = {fc.name: fc.pwl_calibration_input_keypoints for fc in fcs2}
+          want = dict(items) if add_missing else dict(a=[0.0, 1.0, 2.0], b=[0.0, 0.5, 1.0, 4.0])
+          if {k: (list(v) if not isinstance(v, str) else v) for k, v in got.items()} != want:
+            fails.append((mode, 'set_feature_keypoints with an unconfigured name at position %d, add_missing=%s' % (pos, add_missing), str(got)[:120]))
       mc = tfl.configs.CalibratedLatticeConfig(feature_configs=fcs, output_initialization=mode, output_calibration_num_keypoints=3,
                                                output_min=0.0, output_max=1.0)
       lk = premade_lib.compute_label_keypoints(mc, np.array([0.0, 0.2, 0.9, 1.0, 0.5]), logits_output=False,
